@@ -63,6 +63,8 @@ def gen_P(rng, K, extreme=False):
         P = [rng.choice([100.8, 230.0, 10.0, 1.0]) for _ in range(K)]
         P[rng.randrange(K)] = rng.choice([1e-4, 1e-3])
         return P
+    if r > 0.93:
+        return [rng.choice([1, 2, 4, 10]) for _ in range(K)]          # whole numbers, given as integers
     return [rng.choice([0.5, 1.0, 2.0, 4.0, 10.0]) for _ in range(K)]
 
 
@@ -212,6 +214,8 @@ def execute(plan):
     def py_P(P):
         if P is None or np.isscalar(P):
             return P
+        if all(isinstance(x, int) and not isinstance(x, bool) for x in P):
+            return np.array(P)                      # an integer power vector stays an integer array
         return np.array(P, dtype=float)
 
     def check_relations(step, after):
@@ -452,7 +456,10 @@ def execute(plan):
                     h = m.get("handed_P")
                     if h is None:
                         continue
-                    h *= op["factor"]          # e.g. a power sweep that reuses its buffer; nothing is called on the solver
+                    if np.issubdtype(h.dtype, np.integer):
+                        h *= 2                   # an integer buffer can only be scaled by whole numbers
+                    else:
+                        h *= op["factor"]          # e.g. a power sweep that reuses its buffer; nothing is called on the solver
                     bump(res["probes"], "caller_edited_the_power_array_it_had_passed")
                     # either the solver kept its own copy (nothing changes) or it follows the caller's buffer coherently
                     check_relations(step, "the caller edited the P array it had passed")
